@@ -91,6 +91,8 @@ class UnusedTranslator:
             ):
                 for elem in stm.head.elements:
                     self._add_usage(elem.condition)
+            if stm.ast_type in (ASTType.External, ASTType.Heuristic, ASTType.ProjectAtom):
+                self._add_usage_stm(stm.atom)  # the directive observes its own atom with all its arguments
             if stm.ast_type == ASTType.Rule and stm.head.ast_type == ASTType.Literal and stm.head.sign != Sign.NoSign:
                 self._add_usage_stm(stm.head)  # "not a :- body." is a constraint on a
             if stm.ast_type == ASTType.Rule and stm.head.ast_type == ASTType.HeadAggregate:
